@@ -236,7 +236,7 @@ func poke(input OmegaInput) (output OmegaOutput) {
 	if !isWriteable(o, z, input.Addition.IntegratedPVMMap[n].Memory) { // not writeable, return
 		input.VM.Registers[7] = OOB
 		return OmegaOutput{
-			ExitReason: ExitPanic,
+			ExitReason: ExitContinue,
 			Addition:   input.Addition,
 		}
 	}
